@@ -34,6 +34,19 @@ else:
     NEEDLES = ["1.2.3", "pep=1.2.3"]
     NEW_TEXT = ["1.2.4", "pep=1.2.4"]
 
+PARTIAL = P.get("partial", False)
+if PARTIAL:
+    # the second pattern is a partial one that renders the same for OLD and NEW (MAJOR.MINOR under a patch bump); the second file
+    # carries only this pattern and holds a stale value: the real run rewrites it, so the dry run has to show it
+    RAW = [RAW[0], "rel={MAJOR}.{MINOR}" if LEGACY else "rel=MAJOR.MINOR"]
+    NEEDLES = [NEEDLES[0], "pep=1.2.3"]
+    NEW_TEXT = [NEW_TEXT[0], "rel=1.2"]
+
+
+def _pats(idx):
+    return [1] if (PARTIAL and idx == 1) else list(range(NPAT))
+
+
 # each file: one line per pattern, occurrences on distinct lines
 CONTENT = "version 1.2.3 here\nsee pep=1.2.3 or semver=1.2.3\nlast line"
 # pattern 0's needle "1.2.3" also occurs on line 1; iter_matches handles one match per line per pattern (search), so
@@ -83,7 +96,7 @@ def _mk(exists, matches, order, commit):
             # line endings differ per file: LF, CRLF, CR, LF (the dry and the real path must agree on every regime)
             files[name] = CONTENT.replace("\n", ["\n", "\r\n", "\r", "\n"][idx])
         file_patterns[name] = [
-            _COMPILE(VP, RAW[p])._replace(regexp=ByTextRe(NEEDLES[p], matches[idx][p])) for p in range(NPAT)
+            _COMPILE(VP, RAW[p])._replace(regexp=ByTextRe(NEEDLES[p], matches[idx][p])) for p in _pats(idx)
         ]
     fs = MemFS(files)
     cfg = config.Config(
@@ -116,7 +129,7 @@ def _expected_after(before, matches):
     for idx in range(NFILES):
         name = NAMES[idx]
         text = before[name]
-        for p in range(NPAT):
+        for p in _pats(idx):
             text = text.replace(NEEDLES[p], NEW_TEXT[p])
         exp[name] = text
     return exp
@@ -147,7 +160,7 @@ def failed_update_atomic(e0: bool, e1: bool, e2: bool, m00: bool, m01: bool, m10
     for idx in range(NFILES):
         if not exists[idx]:
             fault = True
-        for p in range(NPAT):
+        for p in _pats(idx):
             if not matches[idx][p]:
                 fault = True
     mutating = [x for x in log if x != "status"]
